@@ -19,6 +19,7 @@ PLAN = {
            # the argument given as a one-shot iterator (bounded mode: <= 1 element)
            + [("subgraph", c, "quick", 1, ("fresh", "source")) for c in ("MolGraph", "CondensedReactionGraph")]
            + [("enantiomer", "StereoMolGraph", "quick", 1, ("fresh", "source")), ("enantiomer", "StereoCondensedReactionGraph", "quick", 1, ("fresh", "source"), 4)]
+           + [("reactant", "CondensedReactionGraph", "quick", 1, ("fresh", "source"), 2), ("product", "CondensedReactionGraph", "quick", 1, ("fresh", "source"), 2)]
            + [("reverse_reaction", "CondensedReactionGraph", "quick", 1, ("fresh", "source"), 1), ("reverse_reaction", "StereoCondensedReactionGraph", "quick", 1, ("fresh", "source"), 3)],
     "C17": [("subgraph(any size)", c, "quick", 1, ("view", "wf")) for c in ("MolGraph", "CondensedReactionGraph")]
            # the stereo classes add loops over the descriptor / stereo-change tables: side-car invariants, one task per loop
@@ -30,14 +31,15 @@ PLAN = {
     "C06": [("enantiomer", "StereoMolGraph", "quick", 1, ("view", "wf", "fresh", "source")),
             ("enantiomer", "StereoCondensedReactionGraph", "quick", 1, ("view", "wf", "fresh", "source"), 4)],
     # reverse_reaction: CRG one loop over the bonds, SCRG two more over the stereo-change tables of the copy
-    "C08": [("reverse_reaction", "CondensedReactionGraph", "quick", 1, ("view", "wf", "source"), 1),
+    "C08": [("reactant", "CondensedReactionGraph", "quick", 1, ("view", "wf", "source"), 2), ("product", "CondensedReactionGraph", "quick", 1, ("view", "wf", "source"), 2),
+            ("reverse_reaction", "CondensedReactionGraph", "quick", 1, ("view", "wf", "source"), 1),
             ("reverse_reaction", "StereoCondensedReactionGraph", "quick", 1, ("view", "wf", "source"), 3)],
     "C11": [("relabel_atoms(copy=True)", c, "quick", 1, ("view", "wf", "source")) for c in ("MolGraph", "CondensedReactionGraph")]
            + [("relabel_atoms(copy=True)", "StereoMolGraph", "quick", 1, ("view", "wf", "source"), 2)],
 }
 
 
-def ob_derivation(rep, world, dname, cname, pid, bound, want, timeout, focus=None):
+def ob_derivation(rep, world, dname, cname, pid, bound, want, timeout, focus=None, primary=True):
     from ..contracts.loop_invariants import LOOPS, SUMMARISE
 
     # the bounded variant of subgraph (one-shot iterator argument) keeps the unrolling; everything else uses the summarised comprehensions
@@ -45,6 +47,10 @@ def ob_derivation(rep, world, dname, cname, pid, bound, want, timeout, focus=Non
                              callee_contracts=verify.DESCR_CONTRACTS, focus_loop=focus, summarise=None if dname == "subgraph" else SUMMARISE)
     # keep the clauses that belong to this property (freshness clauses are named C10/...)
     rep.obs[:] = [o for o in rep.obs if o.name.startswith(pid + "/") or o.name.startswith("E1/")]
+    if not primary:
+        # a secondary clause-family task of the same path: the path-level obligations are reported by the primary task
+        fams = ("/result-view/", "/result-wf/", "/fresh/", "/source-untouched")
+        rep.obs[:] = [o for o in rep.obs if any(f in o.name for f in fams) or o.name.startswith("E1/")]
 
 
 def ob_invert(rep, world, pid, timeout):
@@ -63,7 +69,12 @@ def tasks(pid, tier, timeout):
             for focus in range(nl[0] + 1):
                 if pid == "C10" and focus > 0:
                     continue  # the loop obligations are reported once, under the property that owns the derivation
-                out.append(("ob_derivation", (dname, cname, pid, bound, want, timeout, focus)))
+                if focus == 0 and len(want) > 1:
+                    # the loop-free remainder carries the result clauses: one task per clause family (they are independent)
+                    for j, fam in enumerate(want):
+                        out.append(("ob_derivation", (dname, cname, pid, bound, (fam,), timeout, focus, j == 0)))
+                else:
+                    out.append(("ob_derivation", (dname, cname, pid, bound, want if focus == 0 else (), timeout, focus)))
         else:
             out.append(("ob_derivation", (dname, cname, pid, bound, want, timeout)))
     return out
@@ -71,7 +82,7 @@ def tasks(pid, tier, timeout):
 
 def functions(world, pid):
     seen, out = set(), []
-    names = {"copy": "copy", "copy_constructor": "__init__", "subgraph": "subgraph", "subgraph(any size)": "subgraph", "enantiomer": "enantiomer", "relabel_atoms(copy=True)": "relabel_atoms", "reverse_reaction": "reverse_reaction"}
+    names = {"copy": "copy", "copy_constructor": "__init__", "subgraph": "subgraph", "subgraph(any size)": "subgraph", "enantiomer": "enantiomer", "relabel_atoms(copy=True)": "relabel_atoms", "reverse_reaction": "reverse_reaction", "reactant": "reactant", "product": "product"}
     if pid == "C06":
         out.append(src_info("stereodescriptors.py", "_StereoMixin.invert"))
     for dname, cname, *_ in PLAN.get(pid, []):
